@@ -183,7 +183,7 @@ Causes0(a, e) ==
              c == IF e.f.ch < 32768 THEN e.f.ch * 65536 + e.f.cl ELSE -2
          IN [a EXCEPT !.cause[ep] = Put(a.cause[ep], e.f.sid, Get(a.cause[ep], e.f.sid, {}) \cup {<<"reset", c>>}),
                       !.resetS = a.resetS \cup {e.f.sid}]
-    ELSE IF e.t = "in" /\ e.f.ty = "GOAWAY" /\ e.f.bad = ""
+    ELSE IF e.t = "in" /\ e.f.ty = "GOAWAY" /\ e.f.bad = "" /\ e.f.sid = 0
     THEN LET c == IF e.f.ch < 32768 THEN e.f.ch * 65536 + e.f.cl ELSE -2
          IN [a EXCEPT !.connCause[e.ep] = a.connCause[e.ep] \cup {<<"goaway", c>>}]
     ELSE IF e.t = "fault" /\ e.ep \in {"c", "s"}
@@ -195,7 +195,8 @@ Causes0(a, e) ==
 
 Causes(a, e) ==
     LET b == Causes0(a, e) IN
-    IF e.t = "in" /\ e.f.ty = "GOAWAY" /\ e.f.bad = ""
+    IF e.t = "in" /\ e.f.ty = "GOAWAY" /\ e.f.sid # 0 THEN SetEnd(b, e.ep, "peer_bad", 0)
+    ELSE IF e.t = "in" /\ e.f.ty = "GOAWAY" /\ e.f.bad = ""
     THEN LET b2 == [b EXCEPT !.goLast[e.ep] = e.f.last] IN
          IF a.goLast[e.ep] >= 0 /\ e.f.last > a.goLast[e.ep] THEN SetEnd(b2, e.ep, "peer_bad", 0)   \* increasing id: the peer's violation
          ELSE IF e.f.ch # 0 \/ e.f.cl # 0 THEN SetEnd(b2, e.ep, "goaway_in", IF e.f.ch < 32768 THEN e.f.ch * 65536 + e.f.cl ELSE -2)
